@@ -1,14 +1,17 @@
 import NodisVerif.Driver.CodecOps
 import NodisVerif.Driver.ApiOps
+import NodisVerif.Driver.RespOps
 open NodisVerif
 
 structure DState where
-  inst : List (String × MState) := []
+  inst : List (String × Server) := []
   cur  : String := ""
 
-def DState.get (d : DState) : MState := ((d.inst.find? (·.1 == d.cur)).map (·.2)).getD {}
-def DState.put (d : DState) (s : MState) : DState :=
-  { d with inst := (d.cur, s) :: d.inst.filter (·.1 != d.cur) }
+def DState.sv (d : DState) : Server := ((d.inst.find? (·.1 == d.cur)).map (·.2)).getD {}
+def DState.putSv (d : DState) (sv : Server) : DState :=
+  { d with inst := (d.cur, sv) :: d.inst.filter (·.1 != d.cur) }
+def DState.get (d : DState) : MState := d.sv.store
+def DState.put (d : DState) (s : MState) : DState := d.putSv { d.sv with store := s }
 
 /-- split trailing annotations `now=<ms>` / `choice=a,b` off a token list -/
 def annotations (toks : List String) : List String × Int × Option (List Bytes) :=
@@ -18,20 +21,23 @@ def annotations (toks : List String) : List String × Int × Option (List Bytes)
     (((t.drop 7).toString.splitOn ",").filter (· ≠ "")).filterMap Wire.parseArg
   (plain, now, choice)
 
+def tables : List (String → List Bytes → Option HRes) := [Handler.table1]
+
 def step (d : DState) (line : String) : DState × String :=
   let toks := Wire.splitWs line.trimAscii.toString
   match toks with
   | [] => (d, "")
   | "ck" :: _ | "dk" :: _ | "ev" :: _ => (d, Driver.codecOp toks)
   | "open" :: id :: backend :: _ =>
-    ({ d with cur := id }.put { pebble := backend == "pebble" }, "ok")
+    ({ d with cur := id }.putSv { store := { pebble := backend == "pebble" } }, "ok")
   | ["inst", id] => ({ d with cur := id }, "ok")
+  | ["conn", _] => (d, "ok")
   | _ =>
     let (plain, now, choice) := annotations toks
     let s := d.get
     match plain with
     | ["close"] => (d.put (Store.close s now), "ok")
-    | ["reopen"] => (d.put (Store.reopen s), "ok")
+    | ["reopen"] => (d.putSv { store := Store.reopen s }, "ok")       -- a new Nodis: no connections, empty registry
     | ["gc"] => (d.put (Store.gc s now), "ok")
     | ["flush"] => (d.put (Store.flush s now), "ok")
     | ["sleep", _] => (d, "ok")
@@ -41,7 +47,14 @@ def step (d : DState) (line : String) : DState × String :=
        | none => (d, "bad-op")
        | some (s', out) =>
          if s'.hung then (d.put (Store.syncShared s'), "HANG") else
-         (d.put (Store.syncShared { s' with held := [] }), Driver.fmtOut (method == "ZUnion" || method == "ZInter") out))
+         let sv := Server.applySignals { d.sv with store := Store.syncShared { s' with held := [] } }
+         (d.putSv sv, Driver.fmtOut (method == "ZUnion" || method == "ZInter") out))
+    | "resp" :: id :: rest =>
+      (match rest.mapM Wire.parseArg with
+       | none => (d, "bad-op")
+       | some argv =>
+         let (sv, out) := Driver.respStep tables d.sv id now argv choice
+         (d.putSv { sv with store := Store.syncShared sv.store }, out))
     | _ => (d, "bad-op")
 
 partial def loop (h : IO.FS.Stream) (out : IO.FS.Stream) (st : DState) : IO Unit := do
